@@ -9,7 +9,7 @@ sys.path.insert(0, os.path.dirname(os.path.dirname(os.path.abspath(__file__))))
 import core   # noqa: E402
 import amod   # noqa: E402
 
-INVS = ["TypeOK", "WaitsForConsumer", "ReturnedAfterDelivery", "NoSpuriousError", "PerProducerOrder"]
+INVS = ["TypeOK", "FlagRestored", "WaitsForConsumer", "ReturnedAfterDelivery", "NoSpuriousError", "PerProducerOrder"]
 
 
 def run(tier, seed, mutant=None, only_validate=False):
@@ -19,16 +19,24 @@ def run(tier, seed, mutant=None, only_validate=False):
     try:
         if not only_validate:
             for np_, nc in (((2, 2), (3, 1)) if tier == "quick" else ((2, 2), (3, 1), (3, 2))):
-                r, rec = amod.mc(res, work, "ThreadSync", "np%d_nc%d" % (np_, nc), dict(NP=np_, NC=nc, Faults=True, DelTs=False),
+                r, rec = amod.mc(res, work, "ThreadSync", "np%d_nc%d" % (np_, nc), dict(NP=np_, NC=nc, Faults=True, DelTs=False, LeakFlag=False),
                                  INVS, ["AllReturn"], spec="FairSpec", coverage=False)
                 amod.spec_violation(res, r, rec, {}, "C03", "blocking-emit")
             # sensitivity: the pinned tree's `del thread_state.asynchronous` (finding F24)
-            r, rec = amod.mc(res, work, "ThreadSync", "legacy_del", dict(NP=2, NC=1, Faults=False, DelTs=True), ["NoSpuriousError"],
+            r, rec = amod.mc(res, work, "ThreadSync", "legacy_del", dict(NP=2, NC=1, Faults=False, DelTs=True, LeakFlag=False), ["NoSpuriousError"],
                              coverage=False)
             rec["expected_violation"] = "NoSpuriousError"
             rec["ok"] = r.violated == "NoSpuriousError"
             if r.violated != "NoSpuriousError":
                 raise core.MachineryError("sensitivity run: `del thread_state.asynchronous` not refuted by NoSpuriousError")
+            # sensitivity: an emit that does not put the calling thread's flag back when the pipeline raises
+            for inv in ("FlagRestored", "WaitsForConsumer"):
+                r, rec = amod.mc(res, work, "ThreadSync", "leak_" + inv, dict(NP=2, NC=1, Faults=False, DelTs=False, LeakFlag=True), [inv],
+                                 coverage=False)
+                rec["expected_violation"] = inv
+                rec["ok"] = r.violated == inv
+                if r.violated != inv:
+                    raise core.MachineryError("sensitivity run: a leaked thread flag not refuted by " + inv)
         out = os.path.join(work, "runs")
         args = ["--tier", tier, "--seed", seed, "--out", out]
         if mutant:
@@ -41,7 +49,7 @@ def run(tier, seed, mutant=None, only_validate=False):
         groups = {}
         for r in runs:
             groups.setdefault((r["np"], r["nc"]), []).append({"id": r["id"], "ev": r["ev"]})
-        glist = [("blocking emit np=%d nc=%d" % k, dict(NP=k[0], NC=k[1], Faults=True, DelTs=False), ts) for k, ts in groups.items()]
+        glist = [("blocking emit np=%d nc=%d" % k, dict(NP=k[0], NC=k[1], Faults=True, DelTs=False, LeakFlag=False), ts) for k, ts in groups.items()]
         reached, problems = amod.validate_groups(work, "ThreadSyncTrace", glist, timeout=1800)
         unsafe = getattr(amod.validate_groups, "unsafe", {})
         res.traces = len(runs)
@@ -76,9 +84,13 @@ def run(tier, seed, mutant=None, only_validate=False):
                 why = {"Return": "the emit returned (or raised) at a point, or with an outcome, that ThreadSync does not allow -- before its "
                                  "consumer had finished, or with another exception than its consumer's",
                        "Deliver": "the consumer was called out of order / twice", "End": "an emit never returned",
-                       "Stuck": "an emit never returned"}.get(e["ev"], e["ev"])
+                       "Stuck": "an emit never returned",
+                       "AsyncEmit": "after an asynchronous emit in this thread (fails=%s) the thread's flag thread_state.asynchronous is %s: "
+                                    "the failure left the thread in asynchronous mode, its next blocking emits will not block"
+                                    % (e.get("fails"), e.get("flag"))}.get(e["ev"], e["ev"])
                 res.violations.append(dict(
-                    property="C03", also=["C16"] if e["ev"] == "Return" else [], engine="athread", clause=e["ev"],
+                    property="C16" if e["ev"] == "AsyncEmit" else "C03",
+                    also=["C03"] if e["ev"] == "AsyncEmit" else ["C16"] if e["ev"] == "Return" else [], engine="athread", clause=e["ev"],
                     what="pipeline %s, script %s: event #%d %s -- %s" % (r["shape"], r["script"], got[0], e, why),
                     signature=dict(kind="trace", node="blocking-emit", event=e["ev"]),
                     replay=dict(engine="athread", shape=r["shape"], np=r["np"], nc=r["nc"], script=r["script"], at=got[0], ev=r["ev"])))
